@@ -134,6 +134,8 @@ pub struct BgRec {
 }
 static BGREC: Mutex<Option<BgRec>> = Mutex::new(None);
 pub static BGOBS_LINE: Mutex<Option<String>> = Mutex::new(None);
+/// what was observed of a kill at an arbitrary instant (`KW …` is rewritten into `KOBS …`)
+pub static KOBS_LINE: Mutex<Option<String>> = Mutex::new(None);
 
 fn bg_stem(n: &str) -> String { n.strip_suffix(".gz").unwrap_or(n).to_string() }
 fn bg_listing(r: &BgRec) -> std::collections::BTreeSet<String> {
@@ -198,6 +200,14 @@ pub fn builder(dir: &Path, sp: &SpecP, cfg: &CfgP, bg_cleanup: bool, mode: Optio
 /// primary output (`do_not_log`); records reach it through the target `{flw}`, and flush / shutdown /
 /// drop reach it through the handle's treatment of additional writers
 static VIA_ADD: std::sync::atomic::AtomicBool = std::sync::atomic::AtomicBool::new(false);
+/// `VIA filewriter`: `log_to_file_and_writer` — the file writer next to a second writer (the
+/// fan-out layer `MultiWriter` serves both)
+static VIA_FW: std::sync::atomic::AtomicBool = std::sync::atomic::AtomicBool::new(false);
+struct NullWriter;
+impl LogWriter for NullWriter {
+    fn write(&self, _now: &mut DeferredNow, _record: &Record) -> std::io::Result<()> { Ok(()) }
+    fn flush(&self) -> std::io::Result<()> { Ok(()) }
+}
 fn lw_target() -> &'static str { if VIA_ADD.load(std::sync::atomic::Ordering::SeqCst) { "{flw}" } else { "t" } }
 
 pub fn logger(dir: &Path, sp: &SpecP, cfg: &CfgP, mode: Option<WriteMode>, errchan: &Path) -> (Box<dyn log::Log>, flexi_logger::LoggerHandle) {
@@ -210,8 +220,9 @@ pub fn logger(dir: &Path, sp: &SpecP, cfg: &CfgP, mode: Option<WriteMode>, errch
             .panic_if_error_channel_is_broken(false)
             .build().expect("Logger::build");
     }
-    let mut l = flexi_logger::Logger::with(flexi_logger::LogSpecification::trace())
-        .log_to_file(file_spec(dir, sp))
+    let l = flexi_logger::Logger::with(flexi_logger::LogSpecification::trace());
+    let l = if VIA_FW.load(std::sync::atomic::Ordering::SeqCst) { l.log_to_file_and_writer(file_spec(dir, sp), Box::new(NullWriter)) } else { l.log_to_file(file_spec(dir, sp)) };
+    let mut l = l
         .format(raw_format)
         .cleanup_in_background_thread(false)
         .error_channel(flexi_logger::ErrorChannel::File(errchan.to_path_buf()))
@@ -702,10 +713,35 @@ fn dump_creation_table(dir: &Path, side: &Path) {
     let _ = std::fs::write(side, s);
 }
 
+/// creation times by inode, written atomically (the process may be killed at any instant)
+fn dump_creation_table_ino(dir: &Path, side: &Path) {
+    use std::os::unix::fs::MetadataExt;
+    let mut s = String::new();
+    for n in list_dir(dir, &[]) {
+        let p = dir.join(&n);
+        if let (Some(t), Ok(md)) = (flexi_logger::verif_hooks::creation_time(&p), std::fs::metadata(&p)) {
+            s.push_str(&format!("{}\t{}\n", md.ino(), t.format("%Y%m%d%H%M%S")));
+        }
+    }
+    let tmp = side.with_extension("tmp");
+    if std::fs::write(&tmp, s).is_ok() { let _ = std::fs::rename(&tmp, side); }
+}
+
+/// the directory as `SNAP` prints it; a .gz that a killed process had not finished holds nothing readable
+fn snapshot_after_kill(dir: &Path) -> String {
+    let names = list_dir(dir, &[]);
+    if names.is_empty() { return "-".into(); }
+    names.iter().map(|n| {
+        let mut c = read_file(&dir.join(n));
+        if c.starts_with(b"<corrupt gz>") { c.clear(); }
+        format!("{}:{}", hexs(n), hex(&c))
+    }).collect::<Vec<_>>().join(" ")
+}
+
 fn execute_inner(ctx: &mut Ctx, lines: &[String]) -> Vec<String> {
     let case_id = tokens(&lines[0])[2..].join(" ");
     // --- C11: the part of the case up to the kill runs in a child process
-    let crash_at = lines.iter().position(|l| l.starts_with("CW ") || l.starts_with("CROT "));
+    let crash_at = lines.iter().position(|l| l.starts_with("CW ") || l.starts_with("CROT ") || l.starts_with("KW "));
     let in_child = CRASH_CHILD.lock().unwrap().is_some();
     let mut pre_answers: Vec<String> = Vec::new();
     let mut crash_info: Option<(Vec<u8>, bool, Vec<Vec<u8>>)> = None; // (in-flight bytes, killed, acked records)
@@ -723,8 +759,37 @@ fn execute_inner(ctx: &mut Ctx, lines: &[String]) -> Vec<String> {
         text.push_str("\nEND\n");
         std::fs::write(&cf, text).unwrap();
         let exe = std::env::current_exe().unwrap();
-        let o = std::process::Command::new(exe).arg("child").arg("crash").arg(&cf).arg(&dir).arg(&acks).arg(&side).arg(&ctx.work).output().expect("child");
+        let is_kw = lines[ci].starts_with("KW ");
+        let go = acks.with_extension("go");
+        let _ = std::fs::remove_file(&go);
+        let o = if is_kw {
+            // SIGKILL from outside at an arbitrary instant: `delay` microseconds after the child
+            // announced the start of its burst of writes
+            let delay: u64 = tokens(&lines[ci])[3].parse().unwrap();
+            let mut ch = std::process::Command::new(exe).arg("child").arg("crash").arg(&cf).arg(&dir).arg(&acks).arg(&side).arg(&ctx.work)
+                .stdout(std::process::Stdio::null()).stderr(std::process::Stdio::null()).spawn().expect("child");
+            let t0 = std::time::Instant::now();
+            let mut exited = None;
+            while !go.exists() && t0.elapsed().as_secs() < 30 {
+                if let Ok(Some(st)) = ch.try_wait() { exited = Some(st); break; }
+                std::hint::spin_loop();
+            }
+            let status = match exited {
+                Some(st) => st,
+                None => {
+                    let t1 = std::time::Instant::now();
+                    while (t1.elapsed().as_micros() as u64) < delay { std::hint::spin_loop(); }
+                    let _ = ch.kill();
+                    ch.wait().expect("wait")
+                }
+            };
+            std::process::Output { status, stdout: vec![], stderr: vec![] }
+        } else {
+            std::process::Command::new(exe).arg("child").arg("crash").arg(&cf).arg(&dir).arg(&acks).arg(&side).arg(&ctx.work).output().expect("child")
+        };
         let killed = !o.status.success();
+        let ack_text = std::fs::read_to_string(&acks).unwrap_or_default();
+        let burst_acked = ack_text.lines().filter(|l| l.starts_with('K')).count();
         let acked_idx: Vec<usize> = std::fs::read_to_string(&acks).unwrap_or_default().lines().filter_map(|l| l.parse().ok()).collect();
         let mut acked: Vec<Vec<u8>> = Vec::new();
         for (i, l) in lines[..=ci].iter().enumerate() {
@@ -733,23 +798,49 @@ fn execute_inner(ctx: &mut Ctx, lines: &[String]) -> Vec<String> {
                 "CASE" => header_answer(l),
                 "W" | "ROT" | "WP" | "RP" => { if acked_idx.contains(&i) { if t[0] == "W" { acked.push(unhex(t[1]).unwrap()); } "ok".to_string() } else { ctx.report.fail(&case_id, "unacked-before-kill", &format!("line {i}: operation before the kill did not return in the child: {}", String::from_utf8_lossy(&o.stderr))); "unacked".to_string() } }
                 "CW" | "CROT" => if killed { "killed".to_string() } else { "nopoint".to_string() },
+                "KW" => "match".to_string(),
                 _ => "ok".to_string(),
             };
             pre_answers.push(a);
         }
-        ctx.report.count(if killed { "crash.killed" } else { "crash.nopoint" });
         let t = tokens(&lines[ci]);
+        flexi_logger::verif_hooks::clear_creation_table();
+        flexi_logger::verif_hooks::set_virtual_now(Some(stamp_to_local(20200101000000)));
+        if is_kw {
+            let recs: Vec<Vec<u8>> = t[1].split(',').map(|x| unhex(x).unwrap()).collect();
+            ctx.report.count(if killed { "kill.any-instant.killed" } else { "kill.any-instant.burst-finished-first" });
+            ctx.report.add("kill.any-instant.records-acked", burst_acked as u64);
+            for r in &recs[..burst_acked.min(recs.len())] { acked.push(r.clone()); }
+            let inflight = recs.get(burst_acked).cloned().unwrap_or_default();
+            crash_info = Some((inflight, killed, acked));
+            // creation times by inode as of the last completed open; a file that is not in the
+            // table was created by the operation in flight, at the (virtual) time of the burst
+            use std::os::unix::fs::MetadataExt;
+            let mut by_ino = std::collections::HashMap::new();
+            for l in std::fs::read_to_string(&side).unwrap_or_default().lines() {
+                if let Some((i, tt)) = l.split_once('\t') { by_ino.insert(i.parse::<u64>().unwrap(), tt.parse::<u64>().unwrap()); }
+            }
+            let now: u64 = t[2].parse().unwrap();
+            for n in list_dir(&dir, &[]) {
+                let p = dir.join(&n);
+                if let Ok(md) = std::fs::metadata(&p) {
+                    let tt = by_ino.get(&md.ino()).copied().unwrap_or(now);
+                    flexi_logger::verif_hooks::set_creation(&p, stamp_to_local(tt));
+                }
+            }
+            *KOBS_LINE.lock().unwrap() = Some(format!("KOBS {} {} {} {}", t[1], t[2], burst_acked, snapshot_after_kill(&dir)));
+        } else {
+        ctx.report.count(if killed { "crash.killed" } else { "crash.nopoint" });
         ctx.report.count(&format!("crash.at.{}", if t[0] == "CW" { t[3] } else { t[2] }));
         let inflight = if t[0] == "CW" { unhex(t[1]).unwrap() } else { vec![] };
         if !killed && t[0] == "CW" { acked.push(inflight.clone()); }
         crash_info = Some((inflight, killed, acked));
         // the creation times the dead process had recorded
-        flexi_logger::verif_hooks::clear_creation_table();
-        flexi_logger::verif_hooks::set_virtual_now(Some(stamp_to_local(20200101000000)));
         for l in std::fs::read_to_string(&side).unwrap_or_default().lines() {
             if let Some((n, t)) = l.split_once('\t') {
                 flexi_logger::verif_hooks::set_creation(&dir.join(n), stamp_to_local(t.parse().unwrap()));
             }
+        }
         }
         fixed_dir = Some(dir);
         let _ = std::fs::remove_file(&cf);
@@ -786,6 +877,7 @@ fn execute_inner(ctx: &mut Ctx, lines: &[String]) -> Vec<String> {
     let mut h = Hist::default();
     CRLF.store(false, std::sync::atomic::Ordering::SeqCst);
     VIA_ADD.store(false, std::sync::atomic::Ordering::SeqCst);
+    VIA_FW.store(false, std::sync::atomic::Ordering::SeqCst);
     let mut bg_lockstep = false;
     let mut bg_adversarial = false;
     let mut nocheck_foreign = false;
@@ -835,6 +927,19 @@ fn execute_inner(ctx: &mut Ctx, lines: &[String]) -> Vec<String> {
                 "ok".into()
             }
             // logging continues: one more record is accepted and lands in a file (C10)
+            // the whole log directory vanishes (an administrator's `rm -rf`, an unmounted volume) and
+            // comes back: every file-system operation in between fails, incl. the directory listing
+            ["RMDIR"] => {
+                ctx.report.count("op.RMDIR");
+                let _ = std::fs::remove_dir_all(&dir);
+                h.lossy = true;
+                "ok".into()
+            }
+            ["MKDIR"] => {
+                ctx.report.count("op.MKDIR");
+                let _ = std::fs::create_dir_all(&dir);
+                "ok".into()
+            }
             ["ALIVE", now] => {
                 let now: u64 = now.parse().unwrap();
                 let w = f.ensure().clone();
@@ -868,8 +973,9 @@ fn execute_inner(ctx: &mut Ctx, lines: &[String]) -> Vec<String> {
                 "ok".into()
             }
             ["VIA", v] => {
-                f.via_logger = *v == "logger" || *v == "addwriter";
+                f.via_logger = *v == "logger" || *v == "addwriter" || *v == "filewriter";
                 VIA_ADD.store(*v == "addwriter", std::sync::atomic::Ordering::SeqCst);
+                VIA_FW.store(*v == "filewriter", std::sync::atomic::Ordering::SeqCst);
                 "ok".into()
             }
             ["LW", b, now] => {
@@ -888,6 +994,20 @@ fn execute_inner(ctx: &mut Ctx, lines: &[String]) -> Vec<String> {
                 h.recs.push((bytes.clone(), now));
                 if buffered { h.unflushed = true; }
                 if ev.is_empty() || is_async { "ok".into() } else { "err".into() }
+            }
+            // LoggerHandle::reopen_output / trigger_rotation (through the primary writer's fan-out)
+            ["LREOPEN", now] | ["LROT", now] => {
+                let now: u64 = now.parse().unwrap();
+                ctx.report.count(&format!("op.{}", t[0]));
+                match &f.lg {
+                    None => "ok".into(),
+                    Some((_, hs)) => {
+                        let r = with_clock(now, || if t[0] == "LREOPEN" { hs[0].reopen_output() } else { hs[0].trigger_rotation() });
+                        if t[0] == "LREOPEN" { h.unflushed = false; }
+                        if t[0] == "LROT" && r.is_ok() && f.cfg.rot.is_some() { h.rotations += 1; h.forced = true; h.forced_at.push(h.recs.len()); }
+                        if r.is_ok() { "ok".into() } else { "err".into() }
+                    }
+                }
             }
             ["LFLUSH"] => {
                 ctx.report.count("op.LFLUSH");
@@ -1183,6 +1303,31 @@ fn execute_inner(ctx: &mut Ctx, lines: &[String]) -> Vec<String> {
                 let names = rec.lock().unwrap().clone();
                 if t[0] == "CW" { "nopoint".into() } else if names.is_empty() { "-".into() } else { names.join(",") }
             }
+            ["KW", recs, now, _delay] => {
+                // (child only) a burst of writes; the parent kills this process somewhere in it
+                let now: u64 = now.parse().unwrap();
+                let w = f.ensure().clone();
+                if let Some((d, side, acks)) = CRASH_CHILD.lock().unwrap().as_ref().map(|c| (c.dir.clone(), c.side.clone(), c.acks.clone())) {
+                    use std::io::Write as _;
+                    let (d2, side2) = (d.clone(), side.clone());
+                    flexi_logger::verif_hooks::set_point_handler(Some(Arc::new(move |name| {
+                        if name == "open.after" { dump_creation_table_ino(&d2, &side2); }
+                    })));
+                    dump_creation_table_ino(&d, &side);
+                    let mut fa = std::fs::OpenOptions::new().create(true).append(true).open(&acks).unwrap();
+                    std::fs::write(acks.with_extension("go"), b"go").unwrap();
+                    for (k, x) in recs.split(',').enumerate() {
+                        let bytes = unhex(x).unwrap();
+                        let payload = String::from_utf8(bytes[..bytes.len() - 1].to_vec()).unwrap();
+                        let r = with_clock(now, || LogWriter::write(&*w, &mut DeferredNow::new(), &Record::builder().level(log::Level::Info).args(format_args!("{}", payload)).build()));
+                        if r.is_ok() { writeln!(fa, "K{k}").unwrap(); }
+                    }
+                    flexi_logger::verif_hooks::set_point_handler(None);
+                    // not killed in time: the process ends normally; the parent sees every record acknowledged
+                    dump_creation_table_ino(&d, &side);
+                }
+                "match".into()
+            }
             ["RP", now] | ["CROT", now, ..] => {
                 let now: u64 = now.parse().unwrap();
                 let w = f.ensure().clone();
@@ -1289,7 +1434,7 @@ fn execute_inner(ctx: &mut Ctx, lines: &[String]) -> Vec<String> {
                 let p = if direct {
                     f.reading_order().iter().filter(|n| !n.starts_with("moved-")).next_back().map_or(f.current_path(), |n| dir.join(n))
                 } else { f.current_path() };
-                if f.w.is_some() && p.exists() {
+                if (f.w.is_some() || f.lg.is_some()) && p.exists() {
                     if t[0] == "EXTREN" {
                         let nm = format!("moved-{:04}.bak", f.moved);
                         std::fs::rename(&p, dir.join(&nm)).unwrap();
@@ -1417,7 +1562,7 @@ fn execute_inner(ctx: &mut Ctx, lines: &[String]) -> Vec<String> {
     if let Some(c) = CRASH_CHILD.lock().unwrap().as_ref() {
         // the first life ended without reaching the kill point: hand the creation times over
         flexi_logger::verif_hooks::set_virtual_now(Some(stamp_to_local(20200101000000)));
-        dump_creation_table(&c.dir, &c.side);
+        if !lines.iter().any(|l| l.starts_with("KW ")) { dump_creation_table(&c.dir, &c.side); }
     }
     if !in_child && std::env::var_os("FVH_KEEP").is_none() { let _ = std::fs::remove_dir_all(&dir); }
     if h.rotations > 0 || h.restarts > 0 || (f_via_logger && h.recs.len() > 1) {
